@@ -59,7 +59,7 @@ def matrices(rng, dim=3, classes=None):
         T = R.copy()
         T[:dim, dim] = rng.uniform(-5, 5, size=dim)
         out += emit("rigid", T)
-        for s in (1e-3, 0.5, 2.0, 1e3)[k::3] if k else (0.5, 2.0):
+        for s in ((0.5, 2.0), (1e-3,), (1e3,))[k]:
             S = T.copy()
             S[:dim, :dim] *= s
             out += emit("similarity:%g" % s, S)
